@@ -215,6 +215,23 @@ def _threads():
     return numba.get_num_threads()
 
 
+def run_churn_case(case, ctx, mon):
+    """A long-lived process: a configuration is merged (all counter pairs checked), then several hundred other configurations of
+    the same class are merged, then the first one again - whatever is cached per configuration must still belong to it."""
+    first = {"type": "table", "kind": case["kind"], "cfg": case["cfg"], "pattern": "all-pairs-256" if case["kind"] == "log8" else "all-counters-vs-empty"}
+    run_table_case(first, ctx, mon)
+    rng = np.random.default_rng(case["seed"])
+    for i in range(case["others"]):
+        cfg = {"kind": case["kind"], "width": 2, "depth": 1, "max_count": int(2**21 + 1009 * i), "num_reserved": int(i % 150)}
+        a, b = state.make(cfg), state.make(cfg)
+        a.cms[...] = rng.integers(0, 200, size=a.cms.shape)
+        b.cms[...] = rng.integers(0, 200, size=b.cms.shape)
+        a.merge(b)
+    run_table_case(first, ctx, mon)
+    mon.count("configurations_merged_between_two_checks_of_one_configuration", case["others"])
+    mon.nontrivial(True)
+
+
 def run_threads_case(case, ctx, mon):
     """Several threads, each merging its own unrelated pair of large linear tables (>= 4 MiB each) at the same time: every
     result must be min(a + n*b, cap) cell by cell, b unchanged - whatever scratch space a merge uses belongs to that merge."""
@@ -317,6 +334,8 @@ def gen_cases(ctx):
     for i, (dd, ww) in enumerate([(16, 2048), (33, 7), (1, 1), (5, 257), (8, 1009), (3, 1000), (1, 17), (17, 1)]):
         cases.append({"type": "table", "kind": "linear", "cfg": {}, "pattern": "linear-random", "seed": int(rng.integers(0, 2**31)),
                       "depth": dd, "width": ww})
+    cases.append({"type": "churn", "kind": "log8", "cfg": {"max_count": 2**32 - 1, "num_reserved": 100}, "others": 700, "seed": int(rng.integers(0, 2**31))})
+    cases.append({"type": "churn", "kind": "log16", "cfg": {"max_count": 10**6, "num_reserved": 100}, "others": 300, "seed": int(rng.integers(0, 2**31))})
     cases.append({"type": "threads", "threads": 4, "merges": 8, "depth": 8, "width": 131072, "seed": int(rng.integers(0, 2**31))})
     cases.append({"type": "threads", "threads": 3, "merges": 8, "depth": 3, "width": 1001, "seed": int(rng.integers(0, 2**31))})
     for i in range(6):
@@ -344,6 +363,8 @@ def run_case(case, ctx, mon):
         run_table_case(case, ctx, mon)
     elif case["type"] == "threads":
         run_threads_case(case, ctx, mon)
+    elif case["type"] == "churn":
+        run_churn_case(case, ctx, mon)
     else:
         run_estimate_case(case, ctx, mon)
 
@@ -366,4 +387,5 @@ def floors(mon, ctx):
     mon.floor("log16 pairs", mon.counters["log16_pairs"], 10**6)
     mon.floor("linear saturating cells", mon.counters["linear_cells_saturating"], 100)
     mon.floor("merges of unrelated large tables running in several threads at once", mon.counters["concurrent_merges"], 30)
+    mon.floor("configurations merged between two checks of one configuration", mon.counters["configurations_merged_between_two_checks_of_one_configuration"], 900)
     mon.floor("estimate cases", mon.counters["estimate_cases"], 3)
